@@ -350,6 +350,12 @@ func c06Replay(c *Ctx) {
 		req.Header.Set("X-Client-B", "beta")
 		req.Header.Add("X-Client-Multi", "one")
 		req.Header.Add("X-Client-Multi", "two")
+		if i%2 == 0 { // a field line repeated with the same value (the same hop twice, repeated tags)
+			req.Header.Add("X-Client-Multi", "one")
+			req.Header.Add("X-Hop", "10.0.0.1")
+			req.Header.Add("X-Hop", "10.0.0.2")
+			req.Header.Add("X-Hop", "10.0.0.1")
+		}
 		req.Header.Set("Content-Type", pick(r, []string{"application/octet-stream", "application/octet-stream", "application/x-www-form-urlencoded", "application/json"}))
 		if r.IntN(2) == 0 {
 			req.Header.Set("Authorization", "Bearer "+randToken(r, 12))
